@@ -74,6 +74,25 @@ func (s *snmpService) Handle(_ context.Context, conn net.Conn) error {
 		return err
 	}
 	asnSize := 2 + int(hdr[1])
+	if hdr[1]&0x80 != 0 {
+		// long form: the low bits give the number of length octets that follow
+		k := int(hdr[1] & 0x7f)
+		if k == 0 || k > 2 {
+			return fmt.Errorf("unsupported ASN.1 length of %d octets", k)
+		}
+
+		lhdr, err := b.Peek(2 + k)
+		if err != nil {
+			return err
+		}
+
+		size := 0
+		for _, c := range lhdr[2:] {
+			size = size<<8 | int(c)
+		}
+
+		asnSize = 2 + k + size
+	}
 	buf := make([]byte, asnSize)
 	n, err := b.Read(buf)
 	if err != nil {
